@@ -14,21 +14,13 @@ Definition gen_active (j : list (string * bool)) : list string := map fst (filte
 Definition gen_deprecated (j : list (string * bool)) : list string := map fst (filter (fun p => snd p) j).
 Definition gen_exceptions (j : list (string * bool)) : list string := map fst (filter (fun p => negb (snd p)) j).
 
-Definition header (src comment fn : string) : string :=
-  "package spdxlicenses" ++ nl ++ nl ++
-  "// Code generated by go-spdx cmd/" ++ src ++ ". DO NOT EDIT." ++ nl ++
-  "// Source: https://github.com/spdx/license-list-data specifies official SPDX license list." ++ nl ++ nl ++
-  "// " ++ fn ++ " returns a slice of " ++ comment ++ " IDs." ++ nl ++
-  "func " ++ fn ++ "() []string {" ++ nl ++
-  tab ++ "return []string{" ++ nl.
-Definition id_line (id : string) : string := tab ++ tab ++ dq ++ id ++ dq ++ "," ++ nl.
-Definition footer : string := tab ++ "}" ++ nl ++ "}" ++ nl.
-Definition gen_file (src comment fn : string) (ids : list string) : string :=
-  header src comment fn ++ String.concat "" (map id_line ids) ++ footer.
+(* file layout: header ++ (pre ++ id ++ post for each id) ++ footer.  The four strings are observed by the
+   translator (it runs cmd/ on 0, 1 and 2 ids) and regenerated into Gen/Template.v *)
+Definition template := (string * string * string * string)%type.
+Definition gen_file (tpl : template) (ids : list string) : string :=
+  let '(h, pre, post, f) := tpl in
+  h ++ String.concat "" (map (fun id => pre ++ id ++ post) ids) ++ f.
 
-Definition gen_licenses_file (j : list (string * bool)) : string :=
-  gen_file "license.go" "active license" "GetLicenses" (gen_active j).
-Definition gen_deprecated_file (j : list (string * bool)) : string :=
-  gen_file "license.go" "deprecated license" "GetDeprecated" (gen_deprecated j).
-Definition gen_exceptions_file (j : list (string * bool)) : string :=
-  gen_file "exceptions.go" "exception license" "GetExceptions" (gen_exceptions j).
+Definition gen_licenses_file (tpl : template) (j : list (string * bool)) : string := gen_file tpl (gen_active j).
+Definition gen_deprecated_file (tpl : template) (j : list (string * bool)) : string := gen_file tpl (gen_deprecated j).
+Definition gen_exceptions_file (tpl : template) (j : list (string * bool)) : string := gen_file tpl (gen_exceptions j).
